@@ -552,3 +552,76 @@ def callRequests (sign : Nat → Wire) (tries j : Nat) (rs : List Reply) : List 
   callWith Gen.s3FollowRedirects Gen.s3HookRaisesOnNon2xx Gen.s3MaxRedirects sign tries j rs
 
 end Replicat.SigV4
+
+/-! ## read schedules: streams whose `read(n)` returns UP TO `n` bytes
+
+`upload_stream` takes any seekable stream of the caller.  The file protocol (`io.RawIOBase.read`) lets `read(n)` return fewer than
+`n` bytes before the end — raw / unbuffered streams, pipes and sockets, network file systems, wrappers that cap the transfer size —
+and an empty result only at the end.  The stream is read by two loops: `_get_stream_hexdigest` (the declared and signed
+`x-amz-content-sha256`) and the body iterator `utils.aiter_chunks`.  What a loop consumes depends on when it stops; that is
+generated (`Gen.s3DigestStopRule`, `Gen.s3BodyStopRule`, `Gen.s3DigestReadSize`, tools/sections/16_s3reads.py).
+
+A *schedule* is the list of caps the stream applies to the successive calls (`cap = k`: this call hands out at most `k` bytes);
+calls beyond the list are filled.  `streamDigest` / `streamBody` above are the schedule-free descriptions; `C16.lean` proves that
+they are what the loops compute under EVERY schedule whose caps are positive. -/
+namespace Replicat.SigV4
+
+/-- when a read loop stops -/
+inductive StopRule where
+  | emptyRead   -- at the first empty read: `iter(lambda: f.read(n), b'')`, `while chunk := f.read(n)`, `if not chunk: break`
+  | shortRead   -- the read is consumed, then the loop ends if it was shorter than requested: `if len(chunk) < n: break`
+  deriving DecidableEq, Repr
+
+/-- the generated code (0 = empty read, 1 = short read) -/
+def stopRuleOfCode : Nat → StopRule
+  | 0 => .emptyRead
+  | _ => .shortRead
+
+/-- bytes handed out by one `read(n)`: at most `n`, at most the cap of this call -/
+def capOf (n : Nat) : List Nat → Nat
+  | [] => n
+  | c :: _ => min n c
+
+/-- every `read(n)` the loop issues on `rest` (what is left of the stream) with its result, in order: the last one is the read
+that ended the loop (empty, or — `shortRead` — shorter than `n`).  All results but an empty one are consumed (hashed / sent). -/
+def readLoop (rule : StopRule) (n : Nat) : Nat → List Nat → Bytes → List Bytes
+  | 0, _, _ => []
+  | fuel + 1, caps, rest =>
+    let k := capOf n caps
+    let piece := rest.take k
+    match rule with
+    | .emptyRead => if piece.isEmpty then [piece] else piece :: readLoop rule n fuel caps.tail (rest.drop k)
+    | .shortRead => if piece.length < n then [piece] else piece :: readLoop rule n fuel caps.tail (rest.drop k)
+
+/-- the reads of a loop over stream `s` from its position (enough fuel for every schedule of positive caps) -/
+def streamReads (rule : StopRule) (n : Nat) (caps : List Nat) (s : Stream) : List Bytes :=
+  readLoop rule n (s.data.length + 2) caps (s.data.drop s.pos)
+
+/-- `_get_stream_hexdigest` on a stream that answers with schedule `caps`: the bytes fed to the hasher (`hasher.update` chunk by
+chunk = the hash of the concatenation), then `seek(…)` (generated) -/
+def streamDigestSchedWith (rule : StopRule) (n : Nat) (rewind : Option Nat) (c : Crypto) (caps : List Nat) (s : Stream) : Bytes × Stream :=
+  let hashed := (streamReads rule n caps s).flatten
+  (c.sha hashed, { s with pos := match rewind with | some p => p | none => s.pos + hashed.length })
+
+/-- the parts the body iterator yields (`aiter_chunks`: every non-empty read) under schedule `caps` -/
+def streamPartsSchedWith (rule : StopRule) (chunk : Nat) (caps : List Nat) (s : Stream) : List Bytes :=
+  (streamReads rule chunk caps s).filter (fun p => !p.isEmpty)
+
+/-- `upload_stream(name, stream, length, chunk_size)` on a stream that answers the digest loop with `dcaps` and the body iterator
+with `bcaps`, for given stop rules / digest read size / rewind -/
+def uploadStreamSchedWith (drule brule : StopRule) (dn : Nat) (rewind : Option Nat) (c : Crypto) (s : Stream) (length chunk : Nat)
+    (dcaps bcaps : List Nat) : Put :=
+  let (d, s') := streamDigestSchedWith drule dn rewind c dcaps s
+  ⟨d, length, (streamPartsSchedWith brule chunk bcaps s').flatten⟩
+
+def digestStopRule : StopRule := stopRuleOfCode Gen.s3DigestStopRule
+def bodyStopRule : StopRule := stopRuleOfCode Gen.s3BodyStopRule
+
+/-- … with what the code does today -/
+def uploadStreamSched (c : Crypto) (s : Stream) (length chunk : Nat) (dcaps bcaps : List Nat) : Put :=
+  uploadStreamSchedWith digestStopRule bodyStopRule Gen.s3DigestReadSize Gen.s3StreamRewindTo c s length chunk dcaps bcaps
+
+/-- a schedule the file protocol allows: no empty result before the end -/
+def CapsOk (caps : List Nat) : Prop := ∀ k ∈ caps, 0 < k
+
+end Replicat.SigV4
